@@ -2,7 +2,9 @@
    consensus/ticker.go) against the log of the real timeoutTicker routines of the simulated nodes:
    S node h r s  -> acc | ign     (decision of the real routine, read from its log records)
    F node        -> fire h r s    (the timeout the harness delivered: the pending one)
-   R node        -> the node was (re)started: a new ticker *)
+   R node        -> the node was (re)started: a new ticker
+   M t:w ...     -> median <t>   (cstate.MedianTime of a committed block's LastCommit: present
+                                  signatures as timestamp:power, against MedianModel.median_time) *)
 open Conv
 
 let () =
@@ -25,5 +27,13 @@ let () =
         print_endline (match ob with
             | Fired t -> Printf.sprintf "fire %s %s %s" (string_of_n t.ti_h) (string_of_n t.ti_r) (string_of_n t.ti_s)
             | NoFire -> "nofire" | _ -> "?")
+      | "M" :: entries ->
+        let present = List.map (fun e ->
+            match String.split_on_char ':' e with
+            | [t; w] -> { wt_time = z_of_string t; wt_weight = z_of_string w; wt_faulty = false }
+            | _ -> failwith "bad M entry") entries in
+        print_endline (match median_time present with
+            | Some t -> "median " ^ string_of_z t
+            | None -> "median none")
       | l -> failwith ("bad line: " ^ String.concat " " l))
     lines
